@@ -477,7 +477,7 @@ DoTerminate ==
 \* E1: an unknown message type outside a batch: ErrorResponse, then either
 \* the cycle ends (ReadyForQuery) or the server discards until Sync.
 DoUnknown ==
-    /\ Reading("ready") /\ ~skip /\ Head1.t = "U"
+    /\ Reading("ready") /\ ~skip /\ Head1.t \in {"U", "p"}   \* "p": a password message outside authentication
     /\ Consume
     /\ \/ emit' = <<Rv(ErrAny), Rv(MsgReady)>> /\ UNCHANGED skip
        \/ emit' = <<Rv(ErrAny)>> /\ skip' = TRUE
